@@ -73,15 +73,18 @@ Section Step.
 
   (* "numbers pop that many arguments and push them to the function's stack, names pop a single
      argument and place it into a local variable with the same name" *)
-  Fixpoint r_params (ps : list param) (s : state) : state * list value * list (str * value) :=
+  Fixpoint r_params (ps : list param) (s : state) : xres (state * list value * list (str * value)) :=
     match ps with
-    | [] => (s, [], [])
+    | [] => XOk (s, [], [])
     | PNum n :: r =>
         let (s1, popped) := popn n s in
-        let '(s2, more, loc) := r_params r s1 in (s2, popped ++ more, loc)
+        xdo (s2, more, loc) <- r_params r s1; XOk (s2, popped ++ more, loc)
     | PName x :: r =>
         let (s1, v) := pop1 s in
-        let '(s2, more, loc) := r_params r s1 in (s2, more, (x, v) :: loc)
+        xdo (s2, more, loc) <- r_params r s1; XOk (s2, more, (x, v) :: loc)
+    | PStar :: r =>                       (* variadic: the number of arguments is itself popped first *)
+        xdo (s1, popped) <- of_opt (pop_star s);
+        xdo (s2, more, loc) <- r_params r s1; XOk (s2, popped ++ more, loc)
     end.
 
   (* later parameters of the same name win *)
@@ -91,7 +94,7 @@ Section Step.
   (* a named function takes its arguments from the current stack; "the entire function stack"
      is the result *)
   Definition r_named (c : closure) (s : state) : xres (list value * state) :=
-    let '(s1, ps, loc) := r_params (c_params c) s in
+    xdo (s1, ps, loc) <- r_params (c_params c) s;
     with_stack (rev ps)
       (with_locals (bind_all loc)
          (with_context (VList ps)
